@@ -88,12 +88,12 @@ class C19(Prop):
     lean_exe = "c19_driver"
     harness = "h_containers.c"
     theorems = ["EaselModel.Props.C19." + t for t in (
-        "keyhash_refines_partial", "keyhash_refines_cstrings", "keyhash_cstr_of_nulfree", "keyhash_never_faults_partial", "keyhash_refines_jenkins_partial", "keyhash_ops_partial", "keyhash_upsize", "jenkins_in_range",
+        "keyhash_refines_partial", "keyhash_refines_cstrings", "keyhash_cstr_of_nulfree", "keyhash_never_faults_partial", "keyhash_refines_jenkins_partial", "keyhash_ops_partial", "keyhash_upsize", "keyhash_fields_in_range_partial", "jenkins_in_range",
         "keyhash_embedded_nul_counterexample", "spec_store", "spec_lookup", "spec_get",
-        "heap_history", "heap_insert", "heap_extract", "heap_extract_null", "heap_extract_null_unguarded_faults", "heap_sorts", "heap_drain", "heap_validate",
+        "heap_history", "heap_insert", "heap_extract", "heap_extract_null", "heap_extract_null_unguarded_faults", "heap_sorts", "heap_drain", "heap_validate", "heap_nalloc_in_range",
         "rb_insert", "rb_history", "rb_wf_iff", "rb_height", "rb_lookup", "rb_sorted_linked", "rb_linked_is_reverse_inorder",
         "stack_history", "stack_history_shuffles", "stack_no_fault", "stack_push_pop", "stack_pop_empty", "stack_lifo", "stack_popAll_unfold", "stack_discardTopN", "stack_discardSelected",
-        "stack_shuffle", "stack_convert2String",
+        "stack_shuffle", "stack_convert2String", "stack_nalloc_in_range",
         "quicksort_sorts", "quicksort_unguarded_n0_faults")]
     claimed = True
     diverge_is_violation = True    # every op is a deterministic function of the history, specified exactly by the model
@@ -110,14 +110,15 @@ class C19(Prop):
                   "The hand-written models are tied to the working tree by an exact differential run over operation histories including internal state dumps; abstract-type monitors in Python give a concrete failing history.")
     level_note = ("Trusted: Lean kernel + propext/Classical.choice/Quot.sound; fidelity of the hand models is checked (not proved) by the differential run. "
                   "_partial: keys with an embedded NUL stored by length (known finding, counter-example proved) are excluded (esl_quicksort n=0 and esl_heap_IExtractTop(hp,NULL) on an empty heap were found by this check and are fixed in the tree; regression cases + theorems kept). "
-                  "C int overflow (>=2^31 keys/bytes), allocation failure, the pthread mutex/cond paths of esl_stack and hashsize >= 2^28 growth stop are outside the model or untested; red-black keys are integers (doubles without NaN).")
+                  "C int overflow is excluded by an explicit bound on the abstract content (<= 2^30-1 keys / arena bytes: keyhash_fields_in_range_partial); allocation failure, concurrent use of the esl_stack mutex/cond mode (exercised sequentially only) and the hashsize >= 2^28 growth stop are outside the model or untested; red-black keys are integers (doubles without NaN).")
     trusted_base = ["hand models of esl_keyhash.c / esl_heap.c / esl_red_black.c / esl_stack.c / esl_quicksort.c tied by exact differential run "
                     "(h_containers.c, ASan+UBSan build of the working tree), including internal state dumps (heap array, tree shape and colours, stack array, table sizes)",
                     "Lean compiler/runtime for the executable driver", "gcc"]
-    assumptions = ["keyhash: sentinel -1 modelled as Option.none; arena modelled as its used part smem[0..sn); int arithmetic modelled in Nat (no overflow below 2^31 bytes / keys)",
+    assumptions = ["keyhash: sentinel -1 modelled as Option.none; arena modelled as its used part smem[0..sn); int arithmetic modelled in Nat - justified by keyhash_fields_in_range_partial: while the table holds at most 2^30-1 keys and 2^30-1 arena bytes every int/uint32 field stays <= 2^31-1 (likewise nalloc of heaps and stacks: heap_nalloc_in_range, stack_nalloc_in_range)",
                    "keyhash API with n=-1 (C strings) modelled as the buffer API applied to the bytes before the first NUL; strcmp path of Lookup tied by the differential run only",
                    "red-black: parent pointers are the recursion stack of the model; link consistency (child->parent) is checked by the harness on every dump; keys are integer-valued doubles",
-                   "stacks: one model for the I/C/P variants; mutex/cond paths not modelled; Shuffle's Roll loop has fuel 10^6 (terminates with probability 1)",
+                   "stacks: one model for the I/C/P variants; the mutex / condition-variable mode (esl_stack_UseMutex, UseCond, ReleaseCond) is exercised single-threaded by a third of the generated stack histories and must behave as the plain mode (a forgotten unlock blocks the next call: watchdog); concurrent schedules are not modelled; Shuffle's Roll loop has fuel 10^6 (terminates with probability 1)",
+                   "red-black: a third of the generated trees take their nodes from esl_red_black_doublekey_pool_Create() blocks (1..64 nodes per block); the pool is a node supply only, the tree model is the same",
                    "quicksort: fuel >= n proved sufficient; comparison callback assumed a total preorder (as documented)",
                    "allocation failures (eslEMEM paths) are not exercised",
                    "the model's `jenkins` was measured identical to the static C jenkins_hash (buffer and string versions, bytes >= 0x80 included) on 60 keys during development; it is deliberately not compared on every run: the refinement theorem holds for every hash function, so a different hash is not a violation, and the harness does not depend on static names"]
@@ -144,6 +145,12 @@ class C19(Prop):
             {"name": "stack-basic", "sticky": 1,
              "ops": ["st_new t=c", "pop", "push v=104,105,33", "st_dump", "discardsel mode=eq p=105", "tostring",
                      "st_new t=p", "push v=1,2,3,4,5,6", "shuffle seed=42", "st_dump", "discardtop n=2", "popall"]},
+            {"name": "stack-cond", "sticky": 1,
+             "ops": ["st_new t=i mutex=1 cond=1", "push v=1,2,3", "pop", "discardtop n=1", "discardsel mode=even", "shuffle seed=3", "st_dump",
+                     "st_reuse", "count", "st_release", "pop", "push v=9", "popall", "pop"]},
+            {"name": "rb-pool", "sticky": 1,
+             "ops": ["rb_new exp=0 pool=2", "rb_ins k=5,3,8,3,1,4", "rb_dump", "rb_lookup k=3,7", "rb_list", "rb_ins k=2,1", "rb_dump",
+                     "rb_new exp=-3 pool=1", "rb_ins k=1,1,2", "rb_dump"]},
             {"name": "qsort-basic", "sticky": 0,
              "ops": ["qsort mode=asc data=5", "qsort mode=asc data=3,1,2", "qsort mode=desc data=1,1,1,1", "qsort mode=coarse data=9,1,17,2,10,3,-1"]},
         ]
@@ -292,7 +299,9 @@ class C19(Prop):
     def gen_rb(self, rng, nops, big):
         # keys are sent as integers and stored as ldexp(k, exp): denormal, fractional and huge doubles with the same order
         exp = rng.choice([0, 0, 0, -1, -20, -1074 + 54, -1000, 100, 900, 970, rng.randrange(-1020, 970)])
-        ops = ["rb_new exp=%d" % exp]
+        # a third of the trees take their nodes from esl_red_black_doublekey_pool_Create() blocks of a few nodes
+        pool = rng.choice([0, 0, 1, 2, 7, 64])
+        ops = ["rb_new exp=%d pool=%d" % (exp, pool)]
         present = []
         for _ in range(nops):
             r = rng.random()
@@ -321,13 +330,19 @@ class C19(Prop):
             elif r < 0.96:
                 ops.append("rb_list"); present = []
             else:
-                ops.append("rb_new exp=%d" % exp); present = []
+                ops.append("rb_new exp=%d pool=%d" % (exp, pool)); present = []
         ops += ["rb_hash", "rb_dump" if len(present) < 3000 else "rb_hash", "rb_list"]
         return ops
 
     def gen_stack(self, rng, nops, big):
         t = rng.choice("icp")
-        ops = ["st_new t=%s" % t]
+        # a third of the stacks run in the thread-communication mode (mutex, and condition variable): sequentially the
+        # behaviour must be the same. With an active condition variable Pop on an empty stack would wait for a pusher,
+        # so there a Pop is only issued right after a non-empty push, or after esl_stack_ReleaseCond (`st_release`).
+        mode = rng.choice(["", "", " mutex=1", " mutex=1 cond=1"])
+        cond = "cond" in mode
+        sure = False                    # the stack is certainly non-empty
+        ops = ["st_new t=%s%s" % (t, mode)]
 
         def vals(n):
             if t == "c":
@@ -335,36 +350,52 @@ class C19(Prop):
             if t == "i":
                 return self.int_data(rng, n)
             return [rng.randrange(0, 2**47) if rng.random() < 0.7 else rng.randrange(0, 6) for _ in range(n)]
+
+        def pop():
+            nonlocal cond, sure
+            if cond and not sure:
+                if rng.random() < 0.4:
+                    ops.append("st_release"); cond = False; ops.append("pop")
+                else:
+                    ops.append("count")
+            else:
+                ops.append("pop")
+            sure = False
         for _ in range(nops):
             r = rng.random()
             if r < 0.35:
-                ops.append("push v=%s" % fmt_ints(vals(self.size_choice(rng, big))))
+                v = vals(self.size_choice(rng, big))
+                ops.append("push v=%s" % fmt_ints(v)); sure = sure or len(v) > 0
             elif r < 0.5:
-                ops.append("pop")
+                pop()
             elif r < 0.6:
                 ops.append("st_dump")
             elif r < 0.68:
-                ops.append("discardtop n=%d" % rng.choice([0, 1, 2, 5, 127, 128, 129, rng.randrange(0, 300), 10**6]))
+                ops.append("discardtop n=%d" % rng.choice([0, 1, 2, 5, 127, 128, 129, rng.randrange(0, 300), 10**6])); sure = False
             elif r < 0.78:
-                mode = rng.choice(["even", "lt", "eq", "all", "none"])
-                ops.append("discardsel mode=%s p=%d" % (mode, rng.choice([0, 1, 2, 3, 7, 100, rng.randrange(-1000, 1000)])))
+                dmode = rng.choice(["even", "lt", "eq", "all", "none"])
+                ops.append("discardsel mode=%s p=%d" % (dmode, rng.choice([0, 1, 2, 3, 7, 100, rng.randrange(-1000, 1000)]))); sure = False
             elif r < 0.88:
                 ops.append("shuffle seed=%d" % rng.randrange(1, 2**32))
                 ops.append("st_dump")
             elif r < 0.92:
                 ops.append("count")
             elif r < 0.95:
-                ops.append("popall")
+                ops.append("popall"); sure = False
             elif r < 0.97:
-                ops.append("st_reuse")
+                ops.append("st_reuse"); sure = False
             elif t == "c":
                 ops.append("tostring")
-                t = rng.choice("icp"); ops.append("st_new t=%s" % t)
+                t = rng.choice("icp"); mode = rng.choice(["", " mutex=1", " mutex=1 cond=1"]); cond = "cond" in mode; sure = False
+                ops.append("st_new t=%s%s" % (t, mode))
         ops += ["st_dump", "count"]
         if t == "c" and rng.random() < 0.7:
             ops.append("tostring")
         else:
-            ops.append("popall"); ops.append("pop")
+            ops.append("popall"); sure = False
+            if cond:
+                ops.append("st_release"); cond = False
+            ops.append("pop")
         return ops
 
     def gen_qsort(self, rng, nops, big):
@@ -382,7 +413,7 @@ class C19(Prop):
             out.append({"name": "c2s-%d" % n, "sticky": 1, "ops": ["st_new t=c", "push v=%s" % fmt_ints(vals), "count", "tostring"]})
             t = rng.choice("ip")
             vals = [rng.randrange(0, 1000) for _ in range(n)]
-            out.append({"name": "stk-%d" % n, "sticky": 1, "ops": ["st_new t=%s" % t, "push v=%s" % fmt_ints(vals), "discardtop n=%d" % rng.choice([0, 1, n - 1, n, n + 1]),
+            out.append({"name": "stk-%d" % n, "sticky": 1, "ops": ["st_new t=%s%s" % (t, rng.choice(["", " mutex=1"])), "push v=%s" % fmt_ints(vals), "discardtop n=%d" % rng.choice([0, 1, n - 1, n, n + 1]),
                                                                    "push v=%s" % fmt_ints(vals[:3]), "st_dump", "discardsel mode=even", "shuffle seed=%d" % rng.randrange(1, 2**32), "st_dump", "popall", "pop"]})
             vals = self.int_data(rng, n)
             out.append({"name": "heap-%d" % n, "sticky": 1, "ops": ["heap_new max=%d" % rng.randrange(2), "hins v=%s" % fmt_ints(vals), "hvalidate", "hext", "hins v=%s" % fmt_ints(vals[:2]), "hdump", "hdrain", "hext"]})
@@ -641,7 +672,11 @@ class C19(Prop):
             elif name == "push":
                 st += ints(kv["v"])
                 if l != "ok %d" % len(st): return fail(i, "count should be %d" % len(st))
+            elif name == "st_release":
+                if l != "ok": return fail(i, "ReleaseCond failed")
             elif name == "pop":
+                if l == "bad-op":
+                    continue                   # (shrunk case) Pop on an empty stack with an active condition variable: not issued
                 if not st:
                     if l != "eod 0": return fail(i, "empty stack")
                 elif st_ordered:
